@@ -73,11 +73,52 @@ theorem relDiff_nonneg (a b : ℚ) : 0 ≤ relDiff a b := by
 theorem floatsEqual_symm (a b tol : ℚ) : floatsEqual a b tol = floatsEqual b a tol := by
   unfold floatsEqual; rw [relDiff_symm]
 
-/-- **floatsEqual_refl** (true of the repaired code, for every positive tolerance) -/
-theorem floatsEqual_refl (a tol : ℚ) (ht : 0 < tol) : floatsEqual a a tol = true := by
+/-- **floatsEqual_refl** (true of the repaired code a32e880 + e33c234: every argument, every
+    tolerance `≥ 0`, the zero tolerance included) -/
+theorem floatsEqual_refl (a tol : ℚ) (ht : 0 ≤ tol) : floatsEqual a a tol = true := by
   unfold floatsEqual; rw [relDiff_self]; simpa using ht
 
-example : floatsEqual 0 0 (1 / 10 ^ 10) = true := by decide +kernel
+/-- a negative tolerance accepts nothing (the relative difference is `≥ 0`) -/
+theorem floatsEqual_neg_tol (a b tol : ℚ) (ht : tol < 0) : floatsEqual a b tol = false := by
+  unfold floatsEqual
+  have := relDiff_nonneg a b
+  simp only [decide_eq_false_iff_not, not_le]; linarith
+
+/-- with a zero tolerance `Floats_Equal` is equality -/
+theorem floatsEqual_zero_tol (a b : ℚ) : floatsEqual a b 0 = true ↔ a = b := by
+  unfold floatsEqual relDiff
+  simp only [rabs_eq_abs, rmax_eq_max, decide_eq_true_eq]
+  constructor
+  · intro h
+    by_contra hne
+    have hd : |a - b| ≠ 0 := by simpa [sub_eq_zero] using hne
+    rw [if_neg hd] at h
+    have hpos : 0 < |a - b| := lt_of_le_of_ne (abs_nonneg _) (Ne.symm hd)
+    have hm : 0 < max |a| |b| := by
+      rcases lt_or_eq_of_le (le_max_of_le_left (abs_nonneg a) : (0 : ℚ) ≤ max |a| |b|) with h1 | h1
+      · exact h1
+      · exfalso
+        have ha : |a| ≤ 0 := by rw [h1]; exact le_max_left _ _
+        have hb : |b| ≤ 0 := by rw [h1]; exact le_max_right _ _
+        have ha0 : a = 0 := abs_eq_zero.mp (le_antisymm ha (abs_nonneg a))
+        have hb0 : b = 0 := abs_eq_zero.mp (le_antisymm hb (abs_nonneg b))
+        exact hne (by rw [ha0, hb0])
+    have := div_pos hpos hm
+    linarith
+  · intro h; subst h; simp
+
+/-- the comparison before e33c234 (strict `<`) is **not** reflexive at a zero tolerance -/
+theorem floatsEqualStrict_not_refl (a : ℚ) : floatsEqualStrict a a 0 = false := by
+  unfold floatsEqualStrict; rw [relDiff_self]; simp
+
+/-- … and differs from the repaired comparison only on the boundary `relDiff = tol` -/
+theorem floatsEqual_eq_strict (a b tol : ℚ) (h : relDiff a b ≠ tol) : floatsEqual a b tol = floatsEqualStrict a b tol := by
+  unfold floatsEqual floatsEqualStrict
+  rcases lt_or_gt_of_ne h with h1 | h1
+  · simp [h1, h1.le]
+  · simp [not_lt.mpr h1.le, not_le.mpr h1]
+
+example : floatsEqual 0 0 0 = true ∧ floatsEqual 1 1 0 = true ∧ floatsEqual 0 0 (1 / 10 ^ 10) = true := by decide +kernel
 
 /-- the formula before a32e880 is **not** reflexive: `(0,0)` is a witness for every tolerance -/
 theorem floatsEqualOld_not_refl (tol : ℚ) : floatsEqualOld 0 0 tol = false := by
